@@ -86,6 +86,7 @@ func scenFold(out *scenOut, r *rng, thorough bool) {
 		}
 	}
 	kindsReachUpdate(out)
+	printlnKeepsItsPlace(out)
 	sendsAcrossExec(out, "nil")
 	sendsAcrossExec(out, "blocking")
 	for _, end := range []string{"order", "kill"} {
@@ -497,6 +498,9 @@ func scenCmds(out *scenOut, r *rng, thorough bool) {
 	}
 	rawBatchNil(out, false)
 	rawBatchNil(out, true)
+	for _, input := range []string{"nil", "blocking", "pipe"} {
+		cmdResultsAcrossExec(out, input)
+	}
 }
 
 // batchReuse: the SAME Batch command value (or the same BatchMsg value) occurs more than once:
@@ -2000,3 +2004,78 @@ func seqWhileLoopBusyLong(out *scenOut, batch bool) {
 type nilListMsg []string
 type nilMapMsg map[string]int
 type ptrMsg struct{ n int }
+
+// cmdResultsAcrossExec: commands started together with an Exec (one Batch) finish at staggered
+// times - while the terminal is being released (with an input that cannot be cancelled the release
+// waits 500 ms for the read loop), while the command runs, while the terminal is taken back and
+// afterwards. Every result reaches Update exactly once, whatever the program is doing with its
+// terminal at that moment (C02: "if it returns a non-nil message while the program is running, that
+// message is delivered to Update exactly once").
+func cmdResultsAcrossExec(out *scenOut, input string) {
+	ctl := newRecCtl()
+	fe := &fakeExec{run: func(f *fakeExec) error { time.Sleep(60 * time.Millisecond); return nil }}
+	const n = 40
+	ctl.onUpdate = func(m tea.Msg, v int) tea.Cmd {
+		if u, ok := m.(userMsg); ok && u.Sender == 9 {
+			cmds := []tea.Cmd{tea.Exec(fe, func(err error) tea.Msg { return execDoneMsg{Tag: "x", Err: err} })}
+			for k := 0; k < n; k++ {
+				k := k
+				cmds = append(cmds, func() tea.Msg {
+					time.Sleep(time.Duration(k*20) * time.Millisecond) // 0 .. 780 ms: across release, command and restore
+					return cmdMsg{fmt.Sprintf("r%d", k)}
+				})
+			}
+			return tea.Batch(cmds...)
+		}
+		return nil
+	}
+	opts := []tea.ProgramOption{tea.WithoutSignalHandler()}
+	var cleanup func()
+	switch input {
+	case "nil":
+		opts = append(opts, tea.WithInput(nil))
+	case "blocking":
+		br := blockingReader{ch: make(chan struct{})}
+		cleanup = func() { close(br.ch) }
+		opts = append(opts, tea.WithInput(br))
+	case "pipe":
+		pr, pw, err := os.Pipe()
+		if err != nil {
+			return
+		}
+		cleanup = func() { pr.Close(); pw.Close() }
+		opts = append(opts, tea.WithInput(pr))
+	}
+	run := startProgram(ctl, nil, opts...)
+	if cleanup != nil {
+		defer cleanup()
+	}
+	desc := fmt.Sprintf("Update returns Batch(Exec, %d commands finishing 0, 20, … %d ms later); input=%s", n, (n-1)*20, input)
+	waitFor(2*time.Second, func() bool { return ctl.log.has("view-exit", "") })
+	run.p.Send(userMsg{9, 0})
+	okCb := waitFor(4*time.Second, func() bool { return ctl.log.has("update-exit", "execdone:x") })
+	waitFor(3*time.Second, func() bool { return ctl.log.count("update-exit", "c:r") >= n })
+	time.Sleep(50 * time.Millisecond)
+	run.p.Quit()
+	run.wait(4 * time.Second)
+	out.record("cmd-results-across-exec/"+input, desc)
+	if !okCb {
+		return // (a C17 matter)
+	}
+	counts := map[string]int{}
+	for _, u := range updatesOf(ctl.log.snapshot()) {
+		if strings.HasPrefix(u, "c:r") {
+			counts[u]++
+		}
+	}
+	var bad []string
+	for k := 0; k < n; k++ {
+		if c := counts[fmt.Sprintf("c:r%d", k)]; c != 1 {
+			bad = append(bad, fmt.Sprintf("r%d x%d", k, c))
+		}
+	}
+	if len(bad) > 0 {
+		out.fail(finding{Property: "C02", Class: "new", What: "results of commands that finished while an Exec released / held / restored the terminal did not all reach Update exactly once", Input: desc,
+			Expected: fmt.Sprintf("%d results, once each", n), Observed: strings.Join(bad[:min(len(bad), 12)], ", ")})
+	}
+}
